@@ -12,7 +12,7 @@ use crate::with_spec;
 pub const RULE: &str = "(specification, conformant forest, subtrees collapsed into Full items incl. Full inside Full and masters given as Start/End children of a Full item, per-element option default | size width 1-8 | unknown size, short-write schedule of the destination incl. one Interrupted) from a choice tape. \
 Paired runs, byte equality: (1) Full presentation == Start, children, End with the same option on the collapsed master; (2) deprecated write_unknown_size == write_advanced(unknown); \
 (3) for every element written with set_size_byte_count(w) the reference header parser finds size_len == w at its position, and the linear walk (id bytes, payload bytes) of the output equals that of the all-default output; \
-(4) bytes received under the short-write schedule == bytes received by a plain Vec. Non-trivial: a Full containing a master, a width different from the minimal one, or a schedule with >= 2 partial writes; distinct by (spec, forest, schedule).";
+(4) bytes received under the short-write schedule == bytes received by a plain Vec (half of the destinations implement a gathering write_vectored, cut short by the same schedule). Non-trivial: a Full containing a master, a width different from the minimal one, or a schedule with >= 2 partial writes; distinct by (spec, forest, schedule).";
 
 pub const ASSUMPTIONS: &[&str] = &[
     "widths are drawn from those that can hold the size; the unknown-size option is only combined with Start (Full + unknown is not a presentation the statement names)",
